@@ -45,7 +45,13 @@ def log_acceptance(kind: str, ctx, it: dict, crit=None) -> tuple[float | None, d
     if kind == "canonical":
         return -dE / kT, det
     if kind == "hamiltonian":
-        dH = (e_cur + float(atoms.get_kinetic_energy())) - float(ctx.last_potential_energy) - float(ctx.last_kinetic_energy)
+        # reference kinetic energy: that of the freshly drawn momenta as recorded by the workload's refresh wrapper
+        # (independent of what the context remembers); passive workloads without the wrapper fall back on the context
+        ke_ref = it.get("ke_ref")
+        if ke_ref is None:
+            ke_ref = float(ctx.last_kinetic_energy)
+        det["ke_ref_source"] = "recorded at the momentum refresh" if it.get("ke_ref") is not None else "context"
+        dH = (e_cur + float(atoms.get_kinetic_energy())) - float(ctx.last_potential_energy) - float(ke_ref)
         det["dH"] = dH
         return -dH / kT, det
     if kind in ("isobaric", "isotension"):
